@@ -11,13 +11,27 @@ Statements only (proofs go through `Lemmas/DataSet.lean`).
   whole-dataset quantities (what the `spec` driver runs).
 * Numbers are exact rationals: the statement's "within decimal rounding" is proved as exact
   equality. `sqrtFn : Rat → Rat` stands for `Decimal::sqrt` and is universally quantified: nothing
-  is assumed about it (so nothing is *proved* about the quality of the root either; the
-  correspondence compares `std_dev` and `std_dev²` with the real `Decimal::sqrt`).
+  is assumed about it in the general theorems; `std_dev_is_sqrt` then instantiates it with the
+  executable root the drivers run and proves the 10⁻³⁰ error bound. The correspondence compares
+  `std_dev` and `std_dev²` with the real `Decimal::sqrt` (which is not modelled).
 * No hypothesis on `xs` except `xs ≠ []` where a clause is meaningless for the empty dataset
   (greatest/least element). Every theorem is for all finite sequences, of any length.
 -/
 namespace BarterModel.Props.C17
 open BarterModel.DataSet
+
+/-- Reading aid: the spec's `total` is the library sum of the list … -/
+theorem total_eq_sum (xs : List Rat) : total xs = xs.sum := by
+  induction xs with
+  | nil => simp [total]
+  | cons x xs ih => simp [total, ih]
+
+/-- … and `sqDev c xs` is `Σ (x − c)²`. -/
+theorem sqDev_eq_sum (c : Rat) (xs : List Rat) :
+    sqDev c xs = (xs.map fun x => (x - c) ^ 2).sum := by
+  induction xs with
+  | nil => simp [sqDev]
+  | cons x xs ih => simp only [sqDev, ih, List.map_cons, List.sum_cons]; grind
 
 /-- **Refinement (everything at once).** After any sequence of updates the running summary is
 *equal, field by field,* to the summary computed from the whole sequence at once. -/
@@ -69,6 +83,21 @@ theorem std_dev_eq (sqrtFn : Rat → Rat) (xs : List Rat) (hne : xs ≠ []) :
     (Summary.run sqrtFn xs).dispersion.stdDev
       = sqrtFn (sqDev (total xs / (xs.length : Rat)) xs / (xs.length : Rat)) :=
   stdDev_eq sqrtFn xs hne
+
+/-- With the square root the drivers actually run (`sqrtApprox`, √ truncated to 30 decimal places)
+the standard deviation *is* the square root of the whole-dataset population variance up to
+10⁻³⁰: `0 ≤ σ`, `σ² ≤ variance < (σ + 10⁻³⁰)²`. Holds for every dataset, the empty one included. -/
+theorem std_dev_is_sqrt (xs : List Rat) :
+    let σ := (Summary.run sqrtApprox xs).dispersion.stdDev
+    let v := sqDev (total xs / (xs.length : Rat)) xs / (xs.length : Rat)
+    0 ≤ σ ∧ σ * σ ≤ v ∧ v < (σ + 1 / (sqrtScale : Rat)) * (σ + 1 / (sqrtScale : Rat)) := by
+  cases xs with
+  | nil =>
+    have := sqrtApprox_spec 0 Rat.le_refl
+    simpa [Summary.run, Summary.default, Dispersion.default, sqDev, sqrtApprox, Rat.div_def] using this
+  | cons a as =>
+    simp only [stdDev_eq sqrtApprox (a :: as) (by simp)]
+    exact sqrtApprox_spec _ (specVariance_nonneg (a :: as))
 
 /-- range: `high` is the greatest and `low` the least value of the dataset, `range()` their
 difference, and the range is activated exactly when a value has arrived. -/
